@@ -58,6 +58,23 @@ ErrLays(n) ==
       pd \in BOOLEAN, p \in {1, 2} }
 Errs(n) == { [kind |-> k, j |-> 0] : k \in {"nocount", "noinfo"} }
            \cup { [kind |-> k, j |-> j] : k \in {"noname", "end", "start"}, j \in 1..n }
+(* out-of-range offsets and sizes across the whole u32 range (4 bytes, most significant first):
+   far past the end, around 2^31, the top 0x60 values (offset + 0x60 header wraps modulo 2^32 into the zero
+   header), 2^32 - 0x61 (offset + 0x60 = 2^32 - 1, no wrap), sums that only wrap in 32-bit arithmetic *)
+OffWords == { <<0, 16, 0, 0>>, <<127, 255, 255, 255>>, <<128, 0, 0, 0>>, <<128, 0, 0, 1>>,
+              <<255, 255, 255, 159>>, <<255, 255, 255, 160>>, <<255, 255, 255, 164>>, <<255, 255, 255, 255>> }
+SizeWords == { <<0, 16, 0, 0>>, <<127, 255, 255, 255>>, <<128, 0, 0, 0>>, <<255, 255, 255, 255>> }
+BothWords == { << <<255, 255, 255, 240>>, <<0, 0, 0, 17>> >>,      \* offset + size = 1 modulo 2^32
+               << <<255, 255, 255, 160>>, <<0, 0, 0, 4>> >>,       \* wraps onto the first header word
+               << <<255, 255, 255, 224>>, <<0, 0, 0, 8>> >>,       \* wraps into the middle of the header
+               << <<128, 0, 0, 0>>, <<128, 0, 0, 0>> >>,           \* 2^31 + 2^31 = 0 modulo 2^32
+               << <<127, 255, 255, 255>>, <<127, 255, 255, 255>> >> }
+WordErrs(n) ==
+  { [kind |-> "words", j |-> j, ow |-> w, sw |-> <<>>] : j \in 1..n, w \in OffWords }
+  \cup { [kind |-> "words", j |-> j, ow |-> <<>>, sw |-> w] : j \in 1..n, w \in SizeWords }
+  \cup { [kind |-> "words", j |-> j, ow |-> b[1], sw |-> b[2]] : j \in 1..n, b \in BothWords }
+  \cup { [kind |-> "wrapsum", j |-> j] : j \in 1..n }
+WordLens == {0, 5}
 
 \* ---- seeded pseudo-random layouts (thorough): 4..7 files
 Lcg(x) == (x * 75 + 74) % 65537
@@ -88,9 +105,11 @@ PickValue == c.k = "root" /\ c' \in { [k |-> "val", v |-> v] : v \in UNION { Val
 PickLayout == c.k = "val" /\ c' \in { [k |-> "lay", v |-> c.v, lay |-> l, err |-> NoErr] : l \in ConformingLays(c.v) }
 PickError == /\ c.k = "val" /\ \A i \in 1..Len(c.v) : Len(BodyOf(c.v[i])) \in ErrLens
              /\ c' \in { [k |-> "lay", v |-> c.v, lay |-> l, err |-> e] : l \in ErrLays(Len(c.v)), e \in Errs(Len(c.v)) }
+PickWordError == /\ c.k = "val" /\ \A i \in 1..Len(c.v) : Len(BodyOf(c.v[i])) \in WordLens
+                 /\ c' \in { [k |-> "lay", v |-> c.v, lay |-> l, err |-> e] : l \in ErrLays(Len(c.v)), e \in WordErrs(Len(c.v)) }
 PickSeed == c.k = "root" /\ c' \in { [k |-> "rnd", seed |-> s, step |-> 0] : s \in RndSeeds }
 StepSeed == c.k = "rnd" /\ c.step < RndSteps /\ c' = [k |-> "rnd", seed |-> Lcg(c.seed), step |-> c.step + 1]
-Next == PickValue \/ PickLayout \/ PickError \/ PickSeed \/ StepSeed
+Next == PickValue \/ PickLayout \/ PickError \/ PickWordError \/ PickSeed \/ StepSeed
 Spec == Init /\ [][Next]_c
 
 ExpectedErr(kind) == CASE kind = "nocount" -> "NoCount" [] kind = "noinfo" -> "NoInfo"
@@ -120,7 +139,7 @@ Inv == CASE c.k = "lay" -> LayoutLaw(c.v, c.lay, c.err)
 EmitOne(v, lay, err) ==
   LET ct == ArcContent(v, lay, err)
       ex == Extract(ct)
-  IN PrintT("G " \o ToJson([v |-> v, kind |-> err.kind, padded |-> lay.padded, content |-> ct, image |-> Image(ct), alt |-> AltFor(v, ct),
+  IN PrintT("G " \o ToJson([v |-> v, kind |-> err.kind, err |-> err, padded |-> lay.padded, content |-> ct, image |-> Image(ct), alt |-> AltFor(v, ct),
                             expect |-> IF ex.ok THEN [ok |-> TRUE, files |-> ex.files] ELSE [ok |-> FALSE, files |-> <<>>]]))
 Emit == CASE c.k = "lay" -> EmitOne(c.v, c.lay, c.err)
           [] c.k = "rnd" -> LET rc == RndCase(c.seed) IN EmitOne(rc.v, rc.lay, NoErr)
